@@ -160,7 +160,13 @@ class Desc:
                     else:
                         alts, filtered = self.source(d[1]["init"], depth + 1)
             else:
-                alts = [("elem", "local:%s" % base.get("name"))]
+                # a binding that stands for a collection itself: `for list in [&mut self.a, &mut self.b] { for x in list.iter_mut() ..`
+                bd = self.of_binding(base["id"], depth + 1)
+                cands = list(bd[1:]) if bd[0] == "oneof" else [bd]
+                if cands and all(isinstance(x, tuple) and x[0] == "place" for x in cands):
+                    alts = [("elem", x[1]) for x in cands]
+                else:
+                    alts = [("elem", "local:%s" % base.get("name"))]
         elif base.get("k") == "field":
             fp = field_path(base)
             alts = [("elem", ("self." if fp and fp[0] == "self" else (fp[0] + "." if fp else "?.")) + ".".join(str(x) for x in (fp[2] if fp else [])))]
